@@ -77,7 +77,44 @@ def check_poly_case(c):
             probs.append(({"clause": "poly_shape"}, base))
         elif not np.allclose(p.T @ p, np.eye(d), atol=1e-8) or not np.allclose(p.sum(axis=0), 0, atol=1e-8):
             probs.append(({"clause": "poly_not_orthonormal_or_not_orthogonal_to_constant"}, base))
+    probs.extend(_through_formula(c, x, later, base))
     return probs, "ok" if c["defined"] else "degenerate"
+
+
+def _through_formula(c, x, later, base):
+    """The same contracts reached the way a user reaches them: the names center / scale / standardize /
+    poly written in a formula, the design built on x and then evaluated on the later data.  The values
+    must be those of the transform objects judged above (same affine map, same basis)."""
+    import pandas as pd
+
+    from formulae import design_matrices
+    from formulae.transforms import Center, Polynomial, Scale
+
+    probs = []
+    d = c["par"]["degree"]
+    train = pd.DataFrame({"y": np.arange(len(x), dtype=float), "x": x})
+    new = pd.DataFrame({"x": later})
+    names = [("center(x)", Center, {})]
+    if c["scale_sq"]:
+        names += [("scale(x)", Scale, {}), ("standardize(x)", Scale, {})]
+    if c["defined"]:
+        names += [(f"poly(x, {d})", Polynomial, {"degree": d}), (f"poly(x, {d}, raw=True)", Polynomial, {"degree": d, "raw": True})]
+    for text, cls, kw in names:
+        obj = cls()
+        want_tr = np.asarray(obj(x, **kw), dtype=float).reshape(len(x), -1)
+        want_new = np.asarray(obj(later, **kw), dtype=float).reshape(len(later), -1)
+        try:
+            dm = design_matrices("y ~ 0 + " + text, train)
+            got_tr = np.asarray(dm.common.design_matrix, dtype=float).reshape(len(x), -1)
+            got_new = np.asarray(dm.common.evaluate_new_data(new).design_matrix, dtype=float).reshape(len(later), -1)
+        except Exception as e:  # pylint: disable=broad-except
+            probs.append(({"clause": "exception_through_formula", "call": text.split("(")[0], "exc": type(e).__name__}, dict(base, formula=text, error=str(e)[:120])))
+            continue
+        if got_tr.shape != want_tr.shape or not np.allclose(got_tr, want_tr, rtol=0, atol=TOL):
+            probs.append(({"clause": "training_values_through_formula_differ", "call": text.split("(")[0]}, dict(base, formula=text)))
+        elif got_new.shape != want_new.shape or not np.allclose(got_new, want_new, rtol=0, atol=TOL):
+            probs.append(({"clause": "later_data_through_formula_not_the_training_map", "call": text.split("(")[0]}, dict(base, formula=text, got=got_new.tolist()[:4], want=want_new.tolist()[:4])))
+    return probs
 
 
 def check_bs_case(c):
@@ -281,7 +318,8 @@ def main(tier, seed):
         "S->C: Transforms_MC in exact rationals: center / scale / poly on every integer vector of length 3..4 over 0..3 x degree 1..3; "
         "bs on every non-constant vector of length 4 over 0..3 (quick) / 4..5 over 0..4 (thorough) x inner knots 0..2 x degree 1..3 x intercept; "
         "the complete decision table of BSpline._initialize (5600 parameter classes); every case replayed into formulae.transforms and "
-        "compared with the exact values at 1e-9. C->S: longer vectors with ties (length 4..9 over 0..6) and more parameters, with "
+        "compared with the exact values at 1e-9, and center / scale / standardize / poly also written in a formula (design built, then "
+        "evaluated on the later data) against the judged transform objects. C->S: longer vectors with ties (length 4..9 over 0..6) and more parameters, with "
         "Transforms_Trace as exact oracle. Non-trivial = distinct (vector, parameters) cases."
     )
     rep.assumptions = [
